@@ -158,6 +158,8 @@ def check_structure(rep, facts, rel, rule):
         names = set()
         for t in cls_tables.get(con.cls, ()):
             names |= set(tables.get(t, {}))
+        if not names:
+            raise AnalysisError('{}: no mnemonic table is attributed to the class {} by parse_item (which lines build it is not understood)'.format(key, con.cls))
         rep.check(con.mnemonic in names, rule + '.class', '{}: {} is a mnemonic of {}'.format(key, con.mnemonic, con.cls),
                   lambda con=con, names=names: Finding(rule + '.class', 'transform_compressible', con.node,
                                                        '{} is built with mnemonic {!r}, which is not one of its own ({}): size() and args() would not match the encoder'.format(
